@@ -22,6 +22,7 @@ RULE = ('Every digit string up to the tier bound is enumerated (quick: length 0.
         'distinct by payload string (enumeration index) or digest.')
 ASSUMPTIONS = ['"digit string" means ASCII digits; separators (blank, hyphen) may appear anywhere except as the last character',
                'rejection = validate_check_digit raises (documented: AssertionError; any exception is accepted as a rejection)',
+               'every invalid number is validated twice in a row (the verdict must not depend on what was validated before)',
                'reference Luhn is the textbook algorithm written independently here']
 
 DIG = '0123456789'
@@ -91,6 +92,17 @@ def check_payload(payload, deep=True):
             if not rejects(m):
                 out.append((kind + '-accepted', f'{m!r} ({kind} of valid {valid!r}) is accepted by validate_check_digit'))
                 break
+            # the verdict on a number is a function of the number: asked again straight away, and again after a valid
+            # number went through, the same invalid number must still be rejected
+            if not rejects(m):
+                out.append((kind + '-accepted:on-repeat', f'{m!r} ({kind} of valid {valid!r}) is rejected once and accepted when validated again straight away'))
+                break
+        else:
+            last = None
+            for kind, m in mutations(valid):
+                last = (kind, m)
+            if last and (rejects(valid) or not rejects(last[1])):
+                out.append((last[0] + '-accepted:after-valid', f'{last[1]!r} is accepted (or valid {valid!r} rejected) when validated after other numbers'))
     return out
 
 
@@ -149,7 +161,7 @@ def rejects(n):
     except Exception:
         return True
     return False
-print(json.dumps({'accepted_invalid': [n for n in batch['invalid'] if not rejects(n)],
+print(json.dumps({'accepted_invalid': [n for n in batch['invalid'] if not rejects(n) or not rejects(n)],
                   'rejected_valid': [n for n in batch['valid'] if rejects(n)],
                   'optimize': sys.flags.optimize}))
 '''
